@@ -3,7 +3,7 @@
    `NoDup (items prog)`; a concrete schedule takes it to OLeft, through states in which a finalizer
    is waiting for its task while an older callback is still pending. *)
 From Coq Require Import List Bool Arith.
-From Asphalt Require Import Conc.Service Conc.ServiceProofs.
+From Asphalt Require Import Conc.Service Conc.ServiceProofs Conc.ServiceStop.
 Import ListNotations.
 
 Definition SV2 : list svc := [Svc (ACall false) 1 false 1 1; Svc ACancel 0 false 2 0; Svc ANone 1 true 0 0].
@@ -26,3 +26,11 @@ Example prog2_waits_midway :
   own s = InTeardown [ICb 0; ISvc 0; ICb 1] (Some 1) /\ ts s 1 = TCleanup 1 /\
   ~ In (ECb 1) (proj tr) /\ ~ In (ECb 0) (proj tr).
 Proof. vm_compute. repeat split; intuition discriminate. Qed.
+
+(* the second ordering theorem is not vacuous: in that run task 1 ("cancel") and task 0 (a callable) ARE told to
+   stop, each after the tasks started after it have finished -- the raw trace *)
+Example prog2_stop_events :
+  let tr := snd (run_gates SV2 prog2 (init SV2 prog2) [] gs2) in
+  filter (fun o => is_stop 0 o || is_stop 1 o || match o with Finished _ => true | _ => false end) tr =
+  [Finished 2; CancelSeen 1; Finished 1; ActionInvoked 0; Finished 0].
+Proof. vm_compute. reflexivity. Qed.
